@@ -61,7 +61,12 @@ namespace options
 
             if (!is_value() && !is_double_dash())
             {
-                if (!std::regex_match(arg, std::regex("-{1,2}[^-=]+[^=]*(=[\\s\\S]*)?")))
+                // one or two dashes followed by a name that starts with neither '-' nor '='.
+                // (checked by hand: std::regex_match recurses once per character and exhausts
+                // the stack for arguments of a few ten thousand characters)
+                const std::size_t dashes = (arg_.size() > 1 && arg_[1] == '-') ? 2 : 1;
+
+                if (arg_.size() <= dashes || arg_[dashes] == '-' || arg_[dashes] == '=')
                 {
                     raise<parsing_error>("The user input couldn't be parsed. (", arg, ")");
                 }
